@@ -119,6 +119,7 @@ def check_roundtrip_bounded(ctx):
     flat = [1, -2, 'a"b', KGChar('x'), KGSym('s'), 2.5]
     kinds['list'] = [np.asarray([1, 2, 3]), np.asarray(flat, dtype=object), np.asarray([np.asarray([1, 2]), np.asarray(['x', KGChar('"')], dtype=object), 'say "hi"'], dtype=object),
                      np.asarray([], dtype=object), np.asarray([np.asarray([np.asarray([1]), 'a'], dtype=object)], dtype=object)]
+    kinds['list'] += [np.asarray(['a]\nb', 0], dtype=object), np.asarray(['x\ny', np.asarray([1, 'p\n]q'], dtype=object)], dtype=object)]
     kinds['dictionary'] = [{1: 2}, {'a': np.asarray([1, 2]), KGSym('k'): 'v'}, {}]
     for kind, vals in kinds.items():
         bad = None
@@ -133,6 +134,33 @@ def check_roundtrip_bounded(ctx):
                 break
         res.append(dict(name=f"roundtrip(bounded)::write-read-write[{kind}]", ok=bad is None, backend='exhaustive-enumeration(bounded)',
                         detail=bad or f"{n} values of kind {kind}", confirmed=bad is not None, replay=dict(kind=kind, failing=bad)))
+    # the same through a file: .w to an output channel, .r from an input channel (the reader sees the rest of the file)
+    import tempfile, shutil, os
+    d = tempfile.mkdtemp(prefix='pyvc_c11_')
+    try:
+        for kind, vals in kinds.items():
+            if kind == 'dictionary':
+                continue                     # known finding (read-back of dictionaries) is recorded on the .rs path
+            bad, n = None, 0
+            for v in vals:
+                if kind in ('integer', 'real') and v < 0:
+                    continue                 # a leading minus at top level is read as the Negate operator by .r (outside this stand-in)
+                n += 1
+                pth = os.path.join(d, f"v{n}.kg")
+                k['fpath'], k['fval'] = pth, v
+                try:
+                    k('oc::.oc(fpath);.tc(oc);.w(fval);.cc(oc)')
+                    back = k('ic::.ic(fpath);.fc(ic);rr::.r();.cc(ic);rr')
+                    if not same(v, back):
+                        bad = f"{kg_write(v, be)!r} written to a file and read with .r came back as {back!r}"
+                except Exception as e:
+                    bad = f"{v!r} through a file: raised {type(e).__name__}: {e}"
+                if bad:
+                    break
+            res.append(dict(name=f"roundtrip(bounded)::write-file-read[{kind}]", ok=bad is None, backend='exhaustive-enumeration(bounded)',
+                            detail=bad or f"{n} values of kind {kind}", confirmed=bad is not None, replay=dict(kind=kind, failing=bad)))
+    finally:
+        shutil.rmtree(d, ignore_errors=True)
     # Form inverts Format for atoms:  x:$$x
     bad = None
     n = 0
